@@ -148,3 +148,122 @@ package flowcontrol
 //@   ensures  [conn-credit] conn.highestReceived == old(conn.highestReceived) + ite(!fserr && offset > hr && offset <= c.receiveWindow, offset - hr, 0)
 //@   ensures  [inv] c.baseFlowController.fcInv() && conn.cInv()
 //@   modifies c.highestReceived, c.receivedFinalOffset, c.epochStartTime, c.epochStartOffset, conn.highestReceived, conn.epochStartTime, conn.epochStartOffset
+
+//@ func (c *streamFlowController) AddBytesRead
+//@   props C04
+//@   let conn = dyn(c.connection, *connectionFlowController)
+//@   requires c.sInv() && 0 <= n && n <= c.highestReceived - c.bytesRead && n <= conn.highestReceived - conn.bytesRead
+//@   ensures  [stream-adds] c.bytesRead == old(c.bytesRead) + n
+//@   ensures  [conn-credit] conn.bytesRead == old(conn.bytesRead) + n
+//@   ensures  [inv] c.baseFlowController.fcInv() && conn.cInv()
+//@   modifies c.bytesRead, conn.bytesRead
+
+//@ func (c *streamFlowController) Abandon
+//@   props C04
+//@   let conn = dyn(c.connection, *connectionFlowController)
+//@   requires c.sInv() && c.highestReceived - c.bytesRead <= conn.highestReceived - conn.bytesRead
+//@   ensures  [conn-credit] conn.bytesRead == old(conn.bytesRead) + (old(c.highestReceived) - old(c.bytesRead))
+//@   ensures  [once] c.bytesRead == c.highestReceived
+//@   ensures  [inv] c.baseFlowController.fcInv() && conn.cInv()
+//@   modifies c.bytesRead, conn.bytesRead
+
+//@ func (c *streamFlowController) AddBytesSent
+//@   props C04
+//@   let conn = dyn(c.connection, *connectionFlowController)
+//@   requires c.sInv() && 0 <= n && n <= MaxBC - c.bytesSent && n <= MaxBC - conn.bytesSent
+//@   ensures  [stream-adds] c.bytesSent == old(c.bytesSent) + n
+//@   ensures  [conn-adds]   conn.bytesSent == old(conn.bytesSent) + n
+//@   modifies c.bytesSent, conn.bytesSent
+
+//@ func (c *streamFlowController) SendWindowSize
+//@   props C04
+//@   let conn = dyn(c.connection, *connectionFlowController)
+//@   requires c.sInv()
+//@   ensures  [min] result == min(ite(c.bytesSent > c.sendWindow, 0, c.sendWindow - c.bytesSent), ite(conn.bytesSent > conn.sendWindow, 0, conn.sendWindow - conn.bytesSent))
+//@   modifies nothing
+
+//@ func (c *streamFlowController) IsNewlyBlocked
+//@   props C04
+//@   requires c.sInv()
+//@   ensures  [when]  iff(result, old(c.bytesSent) >= old(c.sendWindow) && old(c.sendWindow) != old(c.lastBlockedAt))
+//@   ensures  [at]    implies(result, c.lastBlockedAt == c.sendWindow)
+//@   ensures  [quiet] implies(!result, c.lastBlockedAt == old(c.lastBlockedAt))
+//@   modifies c.lastBlockedAt
+
+//@ func (c *streamFlowController) shouldQueueWindowUpdate
+//@   props C04
+//@   requires c.baseFlowController.fcInv()
+//@   ensures  [final-never] implies(c.receivedFinalOffset, !result)
+//@   modifies nothing
+
+//@ func (c *streamFlowController) GetWindowUpdate
+//@   props C04
+//@   let conn = dyn(c.connection, *connectionFlowController)
+//@   requires c.sInv()
+//@   ensures  [monotone] c.receiveWindow >= old(c.receiveWindow)
+//@   ensures  [exact]    result == 0 && c.receiveWindow == old(c.receiveWindow) ||
+//@                       result == c.bytesRead + c.receiveWindowSize && c.receiveWindow == result
+//@   ensures  [final-none] implies(c.receivedFinalOffset, result == 0)
+//@   ensures  [conn-window-kept] conn.receiveWindow == old(conn.receiveWindow) && conn.bytesRead == old(conn.bytesRead)
+//@   ensures  [inv] c.baseFlowController.fcInv() && conn.cInv()
+//@   modifies c.receiveWindow, c.receiveWindowSize, c.epochStartTime, c.epochStartOffset, conn.receiveWindowSize, conn.epochStartTime, conn.epochStartOffset
+
+//@ func NewConnectionFlowController
+//@   props C04 C12
+//@   requires 0 <= receiveWindow && receiveWindow <= MaxBC && 0 <= maxReceiveWindow && maxReceiveWindow <= MaxBC && rttStats != nil
+//@   ensures  [enforced] result.receiveWindow == receiveWindow && result.receiveWindowSize == receiveWindow && result.maxReceiveWindowSize == maxReceiveWindow
+//@   ensures  [zero] result.bytesSent == 0 && result.sendWindow == 0 && result.bytesRead == 0 && result.highestReceived == 0 && result.lastBlockedAt == 0
+//@   ensures  [inv] result.cInv()
+//@   modifies nothing
+
+//@ func NewStreamFlowController
+//@   props C04 C12
+//@   requires 0 <= receiveWindow && receiveWindow <= MaxBC && 0 <= maxReceiveWindow && maxReceiveWindow <= MaxBC && 0 <= initialSendWindow && initialSendWindow <= MaxBC
+//@   requires rttStats != nil && typeis(cfc, *connectionFlowController) && dyn(cfc, *connectionFlowController).cInv()
+//@   let r = dyn(result, *streamFlowController)
+//@   ensures  [type] typeis(result, *streamFlowController)
+//@   ensures  [enforced] r.receiveWindow == receiveWindow && r.receiveWindowSize == receiveWindow && r.maxReceiveWindowSize == maxReceiveWindow && r.sendWindow == initialSendWindow
+//@   ensures  [zero] r.bytesSent == 0 && r.bytesRead == 0 && r.highestReceived == 0 && !r.receivedFinalOffset
+//@   modifies nothing
+
+// ---- two-call lemmas (proved from the contracts above; no body is opened) ----
+
+//@ lemma blockedOnce
+//@   props C04
+//@   var c *baseFlowController
+//@   assume c.fcInv()
+//@   step b1, o1 = c.IsNewlyBlocked()
+//@   step b2, o2 = c.IsNewlyBlocked()
+//@   show [once] implies(b1, !b2)
+
+//@ lemma blockedAgainOnlyAfterRaise
+//@   props C04
+//@   var c *baseFlowController
+//@   var off protocol.ByteCount
+//@   assume c.fcInv() && 0 <= off && off <= MaxBC
+//@   step b1, o1 = c.IsNewlyBlocked()
+//@   step up = c.UpdateSendWindow(off)
+//@   step b2, o2 = c.IsNewlyBlocked()
+//@   show [needs-raise] implies(b1 && b2, up)
+
+//@ lemma abandonOnce
+//@   props C04
+//@   var c *streamFlowController
+//@   assume c.sInv()
+//@   assume c.highestReceived - c.bytesRead <= dyn(c.connection, *connectionFlowController).highestReceived - dyn(c.connection, *connectionFlowController).bytesRead
+//@   step c.Abandon()
+//@   step mid = dyn(c.connection, *connectionFlowController).bytesRead
+//@   step c.Abandon()
+//@   show [no-double-credit] dyn(c.connection, *connectionFlowController).bytesRead == mid
+
+//@ lemma senderWithinWindow
+//@   props C04
+//@   var c *streamFlowController
+//@   var n protocol.ByteCount
+//@   assume c.sInv() && c.bytesSent <= c.sendWindow
+//@   assume dyn(c.connection, *connectionFlowController).bytesSent <= dyn(c.connection, *connectionFlowController).sendWindow
+//@   step w = c.SendWindowSize()
+//@   assume 0 <= n && n <= w
+//@   step c.AddBytesSent(n)
+//@   show [stream] c.bytesSent <= c.sendWindow
+//@   show [conn] dyn(c.connection, *connectionFlowController).bytesSent <= dyn(c.connection, *connectionFlowController).sendWindow
